@@ -16,17 +16,7 @@ def requests(L, rng, per_fn):
         r = r.copy(); m = r['s'] >= 0; r['s'][m] += len(strs); strs.extend(s); reqs.append(r)
     strs_dom = c18.STRS + [None]
     for name, f in sorted(L.fns.items()):
-        cols = []
-        for ch, an in zip(f['sig'], f['argnames']):
-            if ch == 's':
-                cols.append([strs_dom[i] for i in rng.integers(0, len(strs_dom), per_fn)])
-            elif ch == 'i':
-                dom = c18.INT_DOM[an]
-                cols.append(dom[rng.integers(0, len(dom), per_fn)])
-            else:
-                dom = c16.DOM.get(an, c16.PDOM)
-                cols.append(np.array([dom[i] for i in rng.integers(0, len(dom), per_fn)]))
-        add(*L.build(name, *cols))
+        add(*L.build(name, *c18.numeric_columns(L, name, rng, per_fn, strs_dom)))
     k = max(300, per_fn // 8)
     pick = lambda dom, n=k: [dom[i] for i in rng.integers(0, len(dom), n)]
     hk = lambda n=k: rng.integers(-3, 5, n)
@@ -81,7 +71,7 @@ def jmon(cp, req, resp_raw, strs, fntable):
 def main(tier):
     ck = common.Check('C19', tier)
     rng = np.random.default_rng(ck.seed * 65537 + 19)
-    per_fn = 4000 if tier == 'quick' else 120000
+    per_fn = 15000 if tier == 'quick' else 200000
     stats, nocp, worst = {}, set(), (0.0, '')
     for config in ('shipped', 'kissel'):
         L = execlib.Lib(config)
